@@ -332,7 +332,7 @@ func checkParseStringStep(c *Ctx, u *Universe, typeConsts map[string]int64) {
 			pe := newPE(u, info, fd)
 			pe.oracle = t.oracle(nil)
 			st := newState()
-			for _, s := range fd.Body.List {
+			for _, s := range flatStmts(fd.Body.List) {
 				if s == loop {
 					break
 				}
